@@ -151,6 +151,19 @@ def table_params(prefix, rows, slen=2, krange=None, irange=None):
             elif code == 'n':
                 cells.append('None')
                 continue
+            elif code == 'z':
+                cells.append("'z'")
+                continue
+            elif code in ('c', 'C'):
+                # string of exactly 1 (c) or 2 (C) arbitrary characters, built from int code points (concrete length: much cheaper)
+                parts = []
+                for j in range(1 if code == 'c' else 2):
+                    pn = '%s_%d' % (name, j)
+                    params.append((pn, 'int'))
+                    pre_b.append('0 <= %s < 0x110000' % pn)
+                    parts.append('chr(%s)' % pn)
+                cells.append('(' + ' + '.join(parts) + ')')
+                continue
             else:
                 raise ValueError(code)
             cells.append(name)
@@ -217,7 +230,7 @@ return %s
 ''' % (texpr, bexpr, ('qh.run_pair_counting(Q, TEXT, T, cycle=%d)' % cycle) if counting else ('qh.run_pair(Q, TEXT, T, B, check_sources=%r, mutate_output=%r, ha=%s, hb=%s)' % (check_sources, mutate_output, haexpr, hbexpr))))
     src = harness(imports, params, pre_b + pre_o + (extra_pre or []), body)
     name = '%s%s[A=%s%s]' % (case_name, tag, shape_name(a_rows), (',B=' + shape_name(b_rows)) if b_rows is not None else '')
-    bounds = 'every input table of shape %s (s=str len<=%d, o=str|None, i=int, k=int<%s, d=digit string)%s' % (
+    bounds = 'every input table of shape %s (s=str len<=%d, o=str|None, i=int, k=int<%s, d=digit string, c/C=str of exactly 1/2 chars)%s' % (
         shape_name(a_rows), slen, krange, (' and join table of shape ' + shape_name(b_rows)) if b_rows is not None else '')
     if ha_spec is not None:
         bounds += '; input header %r%s (None = any distinct Unicode name, len <= %d)' % (ha_spec, (' join header %r' % (hb_spec,)) if hb_spec is not None else '', hlen)
